@@ -223,3 +223,29 @@ Example move_example :
     plain_acts (mkEnv (1 # 5) 72 (1 # 5) (355 # 113) qsqrt_exact) (3 # 10) true (OMove (3 # 10) (4 # 10) 0 None)
     = ([APut (QVel vx vy vz 0); ASleep ft; APut qzero], None) /\ vx * ft == 3 # 10 /\ vy * ft == 4 # 10 /\ ft == 5 # 2.
 Proof. do 4 eexists. split; [vm_compute; reflexivity|]. vm_compute. repeat split; reflexivity. Qed.
+
+(* ------------------------------------------------------------------ the quantifier of the displacement clause *)
+(* for ALL velocities v <> 0 — no bound — and all distances: velocity x (distance / velocity) = distance *)
+Lemma velocity_times_duration v d : ~ v == 0 -> v * (d / v) == d.
+Proof. intros H. field. exact H. Qed.
+
+(* per axis, for the normalised direction the code computes: (v * dx / dist) * (dist / v) = dx *)
+Lemma axis_velocity_times_duration v dx dist : ~ v == 0 -> ~ dist == 0 -> (v * dx / dist) * (dist / v) == dx.
+Proof. intros H1 H2. field. split; assumption. Qed.
+
+(* a setpoint clamped at vmax streamed for the duration of the unclamped velocity falls short *)
+Lemma clamped_setpoint_refuted :
+  exists vmax v d, 0 < vmax /\ vmax < v /\ ~ qclamp vmax v * (d / v) == d.
+Proof. exists 1, 2, 1. repeat split; try reflexivity. intros H. vm_compute in H. discriminate. Qed.
+
+(* and above the cap it ALWAYS falls short (positive distance) *)
+Lemma clamped_setpoint_short vmax v d : 0 < vmax -> vmax < v -> 0 < d -> qclamp vmax v * (d / v) < d.
+Proof.
+  intros H0 H1 Hd. unfold qclamp. apply Qltb_true in H1 as Hb. rewrite Hb.
+  assert (Hv : 0 < v) by lra.
+  assert (He : vmax * (d / v) == d * (vmax / v)) by (field; lra).
+  rewrite He.
+  assert (Hr : vmax / v < 1) by (apply Qlt_shift_div_r; lra).
+  setoid_replace d with (d * 1) at 2 by ring.
+  apply Qmult_lt_l; assumption.
+Qed.
